@@ -256,11 +256,11 @@ def run(ch, idx, tier):
         if any(".comp[" in k2 and np.isnan(v2).any() for k2, v2 in ref_arr.items()):
             bump("probe:reference_run_has_nan_compartments")  # NaN == NaN in the comparison below; counted so that it cannot go unnoticed
         bump("model_years_x1000", int(1000 * (t[-1] - t[0])))
-        # set_initialization(result) without a year documents "the last time point": the captured state must be the final one
+        # the state saved for the LAST grid year (from which no restart can be compared) must be the final state of the run
         try:
             from atomica.parameters import Initialization
 
-            last = Initialization.from_result(ref, parset=parset, year=None)
+            last = Initialization.from_result(ref, parset=parset, year=t[-1])
             for pop in ref.model.pops:
                 for comp in pop.comps:
                     raw = getattr(comp, "_vals", None)
@@ -268,7 +268,7 @@ def run(ch, idx, tier):
                     # a compartment absent from the saved state starts empty when the state is applied
                     got = np.atleast_1d(np.asarray(last.values[(comp.name, pop.name)], dtype=float)) if (comp.name, pop.name) in last.values else np.zeros_like(exp)
                     if got.shape != exp.shape or not np.array_equal(got, exp, equal_nan=True):
-                        violations.append({"cls": "saved_state_is_not_the_requested_year", "site": "Initialization.from_result(year=None)", "detail": {"comp": comp.name, "pop": pop.name, "got": got[:4].tolist(), "expected": exp[:4].tolist(), "config": config}})
+                        violations.append({"cls": "saved_state_is_not_the_requested_year", "site": "Initialization.from_result(last grid year)", "detail": {"comp": comp.name, "pop": pop.name, "got": got[:4].tolist(), "expected": exp[:4].tolist(), "config": config}})
                         raise StopIteration
             bump("probe:last_year_state_checked")
         except StopIteration:
